@@ -158,7 +158,7 @@ def tests(inp, outp, n, seed):
     random.Random(seed).shuffle(ms)
     ms = ms[:n]
     done = 0
-    with open(outp, "w") as o, ThreadPoolExecutor(14) as ex:
+    with open(outp, "w") as o, ThreadPoolExecutor(int(os.environ.get("MUT_THREADS", "14"))) as ex:
         for m in ex.map(run_tests, ms):
             done += 1
             if m["survives_tests"]:
